@@ -49,7 +49,9 @@ def check(m, run):
     _sd0.a36s(m, run)
     _sd0.a34s(m, run)
     sem_ok = all(o.ok for o in run.obs[n0:])
-    _sd0.bf3(m, run)      # the basis values the evaluators combine are the Cox-de Boor polynomials on every span (shared with C03)
+    _sd0.bf3(m, run)
+    from . import c16 as _c16r
+    _c16r.rnd1(m, run)        # evenly spaced parameters / generated knots reach the end of their interval exactly (shared with C16)      # the basis values the evaluators combine are the Cox-de Boor polynomials on every span (shared with C03)
     with run.corroborating(sem_ok, 'EVX/A36S/A34S', rules=('LY1.canonical-stride', 'LY1.index-matches-layout', 'BP1.basis-axis-pairing', 'RP1.rational-projection', 'GO1.grid-order')):
         rl.ly1_canonical(m, run, evaluator_funcs(m))
         bp1(m, run, funcs)
